@@ -9,6 +9,7 @@ from chartgen import outcome
 from common import REPO, SPEC, rng
 from ctx import MachineryError
 from props import _notes
+from common import exc_name  # noqa: E402
 
 BASE_A = """[Song]
 {
@@ -112,7 +113,7 @@ def judge_text(item):
     rec = {"id": cid, "props": ["C18"], "maxdigits": maxdigits, "tsexp": tsexp, "outcome": "", "rendered": ""}
     kind, val = outcome(text)
     if kind == "raise":
-        rec["outcome"] = type(val).__name__
+        rec["outcome"] = exc_name(val)
         rec["msg"] = str(val)[:120]
         return rec
     rec["outcome"] = "chart"
